@@ -150,7 +150,7 @@ def run(ctx):
         r = stores.get(key[0])
         if r is not None and m[1][0] == 'f' and m[1] in dict(key[0]):
             base = f'doc{m[1][1:]}.st'
-            cli_pos = sorted({(c, l - 1, col - 1) for (c, f, l, col) in r['diags'] if f == base})
+            cli_pos = sorted({(c, l - 1, col - 1) for (c, f, l, col) in r['labels'] if f == base})
             # diagnostics that carry no file (default FileId: P0030 "no content", P9999) are dropped by the server's
             # per-file filter by design; the CLI prints them against whichever file it registered first, at 1:1
             lp = lsp_positions(got)
